@@ -342,6 +342,7 @@ func main() {
 		{"instr", watgen.InstrFamily(), mc.Pick(r, cover, styles)},
 		{"ctrl", watgen.CtrlFamily(ctrlDepth, watgen.CtrlOpts{}), mc.Pick(r, cover, styles)},
 		{"ctrl-exec", watgen.CtrlFamily(mc.Pick(r, 1, 2), watgen.CtrlOpts{Exec: true}), cover},
+		{"ctrl-shadow", watgen.CtrlShadowFamily(ctrlDepth), cover},
 	}
 	var items []watgen.Item
 	var itemStyles [][]watgen.Style
